@@ -6,9 +6,10 @@
 -/
 import Rox.Props.C14
 import Rox.Spec.Tree
+import Rox.Lemmas.TreeApi
 
 namespace Rox.Props.C10
-open Rox Rox.Api Rox.Spec
+open Rox Rox.Api Rox.Spec Rox.Lemmas
 
 /-- `text_pos_at` returns normally for every byte offset — past the end, and inside a multi-byte
 character included (D3 repair). -/
@@ -41,7 +42,7 @@ structure ApiSafe (d : Doc) : Prop where
     (∀ j, n.prevSibling = some j → j < d.nodes.size) ∧
     (∀ j, n.lastChild = some j → j < d.nodes.size ∧ i + 1 < d.nodes.size) ∧
     (∀ j, n.nextSubtree = some j → ∃ m, d.nodes[j]? = some m ∧ m.prevSibling.isSome)
-  small : d.nodes.size < 4294967295
+  small : d.nodes.size ≤ 4294967295
 
 /-- Under `ApiSafe` none of the link-following accessors can reach a panic site. -/
 theorem primitives_no_panic (d : Doc) (hs : ApiSafe d) (i : Nat) (hi : i < d.nodes.size) :
@@ -99,7 +100,7 @@ theorem primitives_no_panic (d : Doc) (hs : ApiSafe d) (i : Nat) (hi : i < d.nod
 
 /-- Executable form of `ApiSafe` (evaluated on the implementation's arena). -/
 def apiSafeB (d : Doc) : Bool :=
-  decide (d.nodes.size < 4294967295) &&
+  decide (d.nodes.size ≤ 4294967295) &&
   (List.range d.nodes.size).all fun i =>
     match d.nodes[i]? with
     | none => true
@@ -110,5 +111,23 @@ def apiSafeB (d : Doc) : Bool :=
       (match n.nextSubtree with
         | some j => (match d.nodes[j]? with | some m => m.prevSibling.isSome | none => false)
         | none => true)
+
+/-- **Every parsed document is API-safe** (all inputs; `nodes_limit` is a `u32`): the stored links
+of the arena the parser returns satisfy everything the link-following accessors rely on, so none
+of `parent`, `prev_sibling`, `next_sibling` (its `expect` included), `first_child`, `last_child`,
+`has_children`, `has_siblings` can panic on any node of any parsed document. -/
+theorem parsed_api_safe (T : Tables) (txt : Bytes) (opt : Opt) (d : Doc)
+    (hlim : opt.nodesLimit ≤ 4294967295) (h : parse T txt opt = .ok d) : ApiSafe d := by
+  have hw := parse_linkWF T txt opt d h
+  refine ⟨fun i n hn => links_in_range hw i n hn, ?_⟩
+  have := parse_size_le_limit T txt opt d h
+  omega
+
+theorem parsed_primitives_no_panic (T : Tables) (txt : Bytes) (opt : Opt) (d : Doc)
+    (hlim : opt.nodesLimit ≤ 4294967295) (h : parse T txt opt = .ok d) (i : Nat) (hi : i < d.nodes.size) :
+    (∃ r, parent d i = .ok r) ∧ (∃ r, prevSibling d i = .ok r) ∧ (∃ r, lastChild d i = .ok r) ∧
+    (∃ r, firstChild d i = .ok r) ∧ (∃ r, nextSibling d i = .ok r) ∧
+    (∃ r, hasChildren d i = .ok r) ∧ (∃ r, hasSiblings d i = .ok r) :=
+  primitives_no_panic d (parsed_api_safe T txt opt d hlim h) i hi
 
 end Rox.Props.C10
